@@ -37,13 +37,13 @@ def Ty.blocks : Ty → Val → Nat → List Block
   | .range .toIncl t, .record [a], pos => t.blocks a pos
   | .adt m vs, .record fs, pos =>
       if m.zero then
-        [⟨pos + pad pos (Ty.maxSizeOf (.adt m vs)), Ty.sizeOf (.adt m vs), Ty.maxSizeOf (.adt m vs)⟩]
+        [⟨pos + pad pos (Ty.maxSizeOf (.adt m vs)), (Ty.toMem (.adt m vs) (.record fs)).length, Ty.maxSizeOf (.adt m vs)⟩]
       else match vs with
         | .cons _ fds .nil => Fields.blocks fds fs pos
         | _ => []
   | .adt m vs, .variant i fs, pos =>
       if m.zero then
-        [⟨pos + pad pos (Ty.maxSizeOf (.adt m vs)), Ty.sizeOf (.adt m vs), Ty.maxSizeOf (.adt m vs)⟩]
+        [⟨pos + pad pos (Ty.maxSizeOf (.adt m vs)), (Ty.toMem (.adt m vs) (.variant i fs)).length, Ty.maxSizeOf (.adt m vs)⟩]
       else Variants.blocks vs i fs (pos + 8)
   | _, _, _ => []
 def Ty.blocksSeq : Ty → List Val → Nat → List Block
